@@ -290,14 +290,20 @@ NoRoutines == {}
 EffNone(c) == {}
 \* C19, effective semantics: flow 1 goes to an own address, flow 2 to an address in an unsafe network of the certificate,
 \* otherwise the same tuple.  Rule texts: "i" one inbound rule without local_cidr, "io" that and an outbound rule without
-\* local_cidr, "iu" one inbound rule with local_cidr = the unsafe network, "none" no rule.
-SemCfgs == [any : BOOLEAN, txt : {"i", "io", "iu", "none"}]
-SemCfgs3 == [any : BOOLEAN, txt : {"i", "io", "none"}]          \* quick tier
-EffSem(c) == LET own == {1} unsafe == IF c.any THEN {2} ELSE {} IN
-             CASE c.txt = "i"    -> (own \cup unsafe) \X {TRUE}
-               [] c.txt = "io"   -> (own \cup unsafe) \X BOOLEAN
-               [] c.txt = "iu"   -> {<<2, TRUE>>}
-               [] c.txt = "none" -> {}
-SemInit == [any |-> TRUE, txt |-> "i"]
-SemInitRules == EffSem(SemInit)
+\* local_cidr, "iu" one inbound rule with local_cidr = the unsafe network, "none" no rule.  `any' =
+\* firewall.default_local_cidr_any: a rule without local_cidr covers the unsafe network only with it.
+\* Certificate changes: `un' = the node's certificate carries the unsafe network.  A
+\* reload after the certificate was renewed without (or again with) the unsafe network rebuilds the firewall although
+\* the firewall section is byte-identical (interface.go reloadFirewall: certUnsafeChanged); without the unsafe network
+\* its addresses are not the node's any more: nothing to or from them is allowed, whatever the rule text says, and a
+\* rule without local_cidr still covers the own addresses.
+SemCfgsU  == [any : BOOLEAN, txt : {"i", "io", "iu", "none"}, un : BOOLEAN]
+SemCfgsUQ == {c \in [any : BOOLEAN, txt : {"i", "io"}, un : BOOLEAN] : c.any \/ c.un}                \* quick tier
+EffSemU(c) == LET own == {1} unsafe == IF c.un /\ c.any THEN {2} ELSE {} IN
+              CASE c.txt = "i"    -> (own \cup unsafe) \X {TRUE}
+                [] c.txt = "io"   -> (own \cup unsafe) \X BOOLEAN
+                [] c.txt = "iu"   -> IF c.un THEN {<<2, TRUE>>} ELSE {}
+                [] c.txt = "none" -> {}
+SemInitU == [any |-> TRUE, txt |-> "i", un |-> TRUE]
+SemInitRulesU == EffSemU(SemInitU)
 =============================================================================
